@@ -288,6 +288,12 @@ def AugLe (S : α) : Tree α → Prop
   | .nil => True
   | .node l n mx c r => mx ≤ trueMax S (.node l n mx c r) ∧ AugLe S l ∧ AugLe S r
 
+/-- what the query actually relies on: no overestimate anywhere *below* the root -- the root's own
+    stored maximum is never read (phase 1 only reads maxima of left children) -/
+def AugLeQ (S : α) : Tree α → Prop
+  | .nil => True
+  | .node l _ _ _ r => AugLe S l ∧ AugLe S r
+
 /-- the stored maxima are exact -/
 def Exact (S : α) : Tree α → Prop
   | .nil => True
@@ -308,6 +314,10 @@ def bstB : Tree α → Bool
 def augLeB (S : α) : Tree α → Bool
   | .nil => true
   | .node l n mx c r => !(decide (trueMax S (.node l n mx c r) < mx)) && augLeB S l && augLeB S r
+
+def augLeQB (S : α) : Tree α → Bool
+  | .nil => true
+  | .node l _ _ _ r => augLeB S l && augLeB S r
 
 def exactB (S : α) : Tree α → Bool
   | .nil => true
@@ -374,9 +384,9 @@ def initTree (S zero negOne : α) : Tree α := .node .nil (dummy S zero negOne) 
 /-! ### the refinement relation between the tree and the abstract list -/
 
 /-- the tree holds exactly the abstract active set plus the permanent dummy `d`, with strictly
-    ordered keys and stored maxima that never overestimate -/
+    ordered keys and stored maxima that never overestimate (below the root) -/
 def Rel (S : α) (d : Node α) (t : Tree α) (st : List (Node α)) : Prop :=
-  BST t ∧ AugLe S t ∧ ∀ n, n ∈ t.toList ↔ (n = d ∨ n ∈ st)
+  BST t ∧ AugLeQ S t ∧ ∀ n, n ∈ t.toList ↔ (n = d ∨ n ∈ st)
 
 /-- what the sweep guarantees at a centre event: the gradient is not below the sentinel, the cell
     itself is active, every nearer active cell spans the bearing, and the dummy contributes nothing -/
@@ -403,6 +413,24 @@ def InvAlong (S : α) (d : Node α) (O : TreeOps α) : Tree α → List (Node α
 def Preserves (S : α) (d : Node α) (O : TreeOps α) : Prop :=
   (∀ t st n, Rel S d t st → n.key ≠ d.key → (∀ m ∈ st, m.key ≠ n.key) → Rel S d (O.ins n t) (n :: st)) ∧
   (∀ t st k, Rel S d t st → Rel S d (O.del k t) (st.filter fun n => !(eqv n.key k)))
+
+
+/-- an implementation whose operations are the model's (`leafInsert`, `delCore`) followed by what the
+    colour fixups may do -- what seam 1 of the correspondence observes of the real code, step by step -/
+def Impl (S : α) (O : TreeOps α) : Prop :=
+  (∀ n t, Rebal S (leafInsert n t) (O.ins n t)) ∧ (∀ k t c, delCore S k t = some c → Rebal S c (O.del k t))
+
+/-- a sweep without gradient ties: every inserted cell has a minimum gradient above the sentinel and,
+    whenever a cell is deleted, no two active cells (nor the dummy) share their minimum gradient -/
+def NoTieOps (S : α) (d : Node α) : List (Node α) → List (Op α) → Prop
+  | _, [] => True
+  | st, op :: ops =>
+    (match op with
+      | .ins n => S ≤ minv n
+      | .del k => (∃ n ∈ st, n.key = k) ∧ d.key ≠ k ∧
+          (∀ a ∈ d :: st, ∀ b ∈ d :: st, minv a = minv b → a.key = b.key) ∧
+          (∀ n ∈ d :: st, minv n = S → n.key < k)
+      | .qry _ _ _ => True) ∧ NoTieOps S d (stepL st op).1 ops
 
 end
 
